@@ -93,9 +93,9 @@ func c09Tree(r *Reporter, root string, tr Tree, ps3 bool, light bool) {
 	}
 	offs = uniqSorted(append(offs, announced+5000))
 	lens := func(off int64) []int {
-		ls := []int{1, 2, 2047, 2048, 2049, 65536, 65537}
+		ls := []int{1, 2, 2047, 2048, 2049, 65536, 65537, 1 << 20}
 		if light {
-			ls = []int{1, 2048, 2049, 65537}
+			ls = []int{1, 2048, 2049, 65537, 1 << 20}
 		}
 		for _, b := range bounds {
 			if b > off && b-off < 300000 {
